@@ -226,9 +226,11 @@ impl Scheduler for SimScheduler {
                 Strategy::Freeze { budget, sticky_permille, .. } => {
                     let budget = *budget as u64;
                     let sticky = *sticky_permille as u64;
-                    // arm when a trigger step is reached
+                    // arm when a trigger is reached (triggers count choice points, like PCT's
+                    // change points, so that they spread over the whole run)
+                    let progress = self.local.choice_points;
                     while let Some(&t) = self.triggers.first() {
-                        if t <= step {
+                        if t <= progress {
                             self.triggers.remove(0);
                             self.armed += 1;
                         } else {
